@@ -1,6 +1,7 @@
 // c16: pure executor for property C16 (obfuscation hides every value that is not explicitly excluded).
 //
-//	c16 run <cases.json> <out.ndjson>
+//	c16 run  <cases.json> <out.ndjson>                      cases one after the other (histories on one object: see run)
+//	c16 conc <cases.json> <out.ndjson> <workers> <millis>   concurrent obfuscation, every call judged on its own (see conc)
 //
 // case: {"id":n,"entry":"json"|"har_request"|"har_response","excl":[{"n":notation,"segs":[..],"raw":"<optional literal>"}],"doc":tree}
 // tree: {"k":"leaf","t":"s|n|b|z","f":[],"v":"<value: string content / raw JSON token>"}   (v optional: synthesised per leaf)
@@ -16,17 +17,20 @@ package main
 
 import (
 	"bytes"
-	"errors"
 	"encoding/json"
+	"errors"
 	"fmt"
 	"os"
 	"strconv"
 	"strings"
+	"sync"
+	"time"
 
 	"lunar/engine/config"
 	lunarMessages "lunar/engine/messages"
 	"lunar/engine/services/diagnoses"
 	harcollector "lunar/engine/streams/processors/har-collector"
+	public_types "lunar/engine/streams/public-types"
 	test_utils "lunar/engine/streams/test-utils"
 	"lunar/engine/utils/obfuscation"
 	sharedConfig "lunar/shared-model/config"
@@ -40,6 +44,9 @@ type Doc struct {
 	T string            `json:"t"`
 	F []json.RawMessage `json:"f"`
 	V *string           `json:"v,omitempty"`
+	// large documents: a string leaf whose value is v repeated rep times; an array whose single child is repeated times times
+	Rep   int `json:"rep,omitempty"`
+	Times int `json:"times,omitempty"`
 
 	keys []string
 	kids []*Doc
@@ -56,6 +63,8 @@ type Case struct {
 	Entry string `json:"entry"`
 	Excl  []Excl `json:"excl"`
 	Doc   *Doc   `json:"doc"`
+	H     int    `json:"h,omitempty"`    // history id (run mode): consecutive cases with the same h > 0 share one object
+	Pair  string `json:"pair,omitempty"` // "req" / "resp": request and response body of one generateHAR call
 }
 
 type Leaf struct {
@@ -85,6 +94,10 @@ func (d *Doc) resolve(ctr *int) {
 			}
 			d.V = &v
 		}
+		if d.Rep > 1 && d.T == "s" {
+			v := strings.Repeat(*d.V, d.Rep)
+			d.V = &v
+		}
 	case "arr":
 		for _, raw := range d.F {
 			k := &Doc{}
@@ -93,6 +106,9 @@ func (d *Doc) resolve(ctr *int) {
 			}
 			k.resolve(ctr)
 			d.kids = append(d.kids, k)
+			for n := 1; n < d.Times; n++ {
+				d.kids = append(d.kids, k)
+			}
 		}
 	case "obj":
 		for _, raw := range d.F {
@@ -346,71 +362,197 @@ func legacy(obf obfuscation.Obfuscator, c Case, text string, excl []string) (str
 	return s, nil
 }
 
+// prepared is a case rendered to text
+type prepared struct {
+	c    Case
+	text string
+	excl []string
+}
+
+func prepare(c Case) *prepared {
+	ctr := 0
+	c.Doc.resolve(&ctr)
+	var b strings.Builder
+	c.Doc.render(&b)
+	excl := make([]string, len(c.Excl))
+	for i, x := range c.Excl {
+		excl[i] = renderExcl(x)
+		if c.Excl[i].Segs == nil {
+			c.Excl[i].Segs = []string{}
+		}
+		c.Excl[i].Raw = nil
+	}
+	return &prepared{c: c, text: b.String(), excl: excl}
+}
+
+func mockStream(reqBody, respBody string) public_types.APIStreamI {
+	return test_utils.NewMockAPIStream("https://api.test/users/1?id=2",
+		map[string]string{"authorization": "Bearer t"}, map[string]string{"content-type": "application/json"}, reqBody, respBody)
+}
+
+var obf = obfuscation.Obfuscator{Hasher: hasher}
+
+// call hands one body to the real code through a fresh object of its entry point
+func call(p *prepared) (string, error) {
+	switch p.c.Entry {
+	case "json":
+		return obf.ObfuscateJSON(p.text, p.excl)
+	case "har_request", "har_response":
+		return harcollector.VerifObfuscateBody(p.excl, mockStream(p.text, p.text), p.text, p.c.Entry == "har_response"), nil
+	case "legacy_request", "legacy_response":
+		return legacy(obf, p.c, p.text, p.excl)
+	}
+	vh.Die("unknown entry %q", p.c.Entry)
+	return "", nil
+}
+
+func short(s string) string {
+	if len(s) > 2000 {
+		return fmt.Sprintf("%s...(%d bytes)", s[:300], len(s))
+	}
+	return s
+}
+
+// project builds the event of one call: the real output compared leaf by leaf with the input document
+func project(p *prepared, outText string, err error) vh.Ev {
+	c := p.c
+	ev := vh.Ev{"ev": "obf", "id": c.ID, "h": c.H, "entry": c.Entry, "excl": c.Excl, "excl_strings": p.excl, "in": short(p.text), "out": short(outText)}
+	leaves := []Leaf{}
+	shape := "same"
+	if err != nil {
+		shape = "error: " + err.Error()
+	} else {
+		dec := json.NewDecoder(strings.NewReader(outText))
+		dec.UseNumber()
+		var out any
+		if derr := dec.Decode(&out); derr != nil {
+			shape = "output-not-json"
+		} else if dec.More() {
+			shape = "output-trailing-data"
+		} else {
+			compare(c.Doc, out, nil, &leaves, &shape)
+		}
+	}
+	// document and (when the structure is preserved) the output with the class at every leaf, for the comparison with ObfI
+	ev["doc"] = c.Doc.tree(nil, nil)
+	if shape == "same" {
+		next := 0
+		ev["otree"] = c.Doc.tree(&leaves, &next)
+	} else {
+		ev["otree"] = Tree{K: "none", T: "", F: []any{}}
+	}
+	ev["shape"] = shape
+	ev["leaves"] = leaves
+	return ev
+}
+
+// run: cases one after the other.  Consecutive cases with the same h > 0 form a history on ONE object of the entry point:
+// HAR collector bodies of a history go through one obfuscator object (created with the exclusions of the first case);
+// a case with pair="req" is the request body of a transaction whose response body is the next case (pair="resp"): both
+// are exported by one call of the collector's generateHAR.
+func run(cases []Case, tr *vh.Trace) {
+	var hist int
+	var har *harcollector.VerifBodyObfuscator
+	for i := 0; i < len(cases); i++ {
+		p := prepare(cases[i])
+		c := p.c
+		if c.H != hist || c.H == 0 {
+			hist, har = c.H, nil
+		}
+		switch {
+		case c.Pair == "req":
+			if i+1 >= len(cases) || cases[i+1].Pair != "resp" {
+				vh.Die("case %d: pair=req without a following pair=resp", c.ID)
+			}
+			q := prepare(cases[i+1])
+			i++
+			reqOut, respOut, err := harcollector.VerifGenerateHARBodies(p.excl, mockStream(p.text, q.text))
+			tr.Add(project(p, reqOut, err))
+			tr.Add(project(q, respOut, err))
+		case c.H > 0 && (c.Entry == "har_request" || c.Entry == "har_response"):
+			if har == nil {
+				har = harcollector.VerifNewBodyObfuscator(p.excl, mockStream(p.text, p.text))
+			}
+			var out string
+			if c.Entry == "har_response" {
+				out = har.ResponseBody(p.text)
+			} else {
+				out = har.RequestBody(p.text)
+			}
+			tr.Add(project(p, out, nil))
+		default:
+			out, err := call(p)
+			tr.Add(project(p, out, err))
+		}
+	}
+}
+
+// conc: `workers` goroutines obfuscate concurrently for `millis` ms; worker w keeps handing case w mod len(cases) to the
+// real code.  Every call is projected against ITS OWN document; identical outputs of one worker are one event with a count.
+func conc(cases []Case, tr *vh.Trace, workers int, millis int) {
+	preps := make([]*prepared, len(cases))
+	for i, c := range cases {
+		preps[i] = prepare(c)
+	}
+	deadline := time.Now().Add(time.Duration(millis) * time.Millisecond)
+	var wg sync.WaitGroup
+	start := make(chan struct{})
+	type seen struct {
+		out string
+		err error
+		n   int
+	}
+	results := make([][]*seen, workers)
+	for w := 0; w < workers; w++ {
+		wg.Add(1)
+		go func(w int) {
+			defer wg.Done()
+			p := preps[w%len(preps)]
+			<-start
+			for time.Now().Before(deadline) && len(results[w]) < 8 {
+				out, err := call(p)
+				found := false
+				for _, s := range results[w] {
+					if s.out == out && (s.err == nil) == (err == nil) {
+						s.n++
+						found = true
+						break
+					}
+				}
+				if !found {
+					results[w] = append(results[w], &seen{out: out, err: err, n: 1})
+				}
+			}
+		}(w)
+	}
+	close(start)
+	wg.Wait()
+	id := 0
+	for w := 0; w < workers; w++ {
+		p := preps[w%len(preps)]
+		for _, s := range results[w] {
+			ev := project(p, s.out, s.err)
+			ev["id"], ev["worker"], ev["calls"], ev["case"] = id, w, s.n, p.c.ID
+			id++
+			tr.Add(ev)
+		}
+	}
+}
+
 func main() {
 	vh.Quiet()
-	if len(os.Args) != 4 || os.Args[1] != "run" {
-		vh.Die("usage: c16 run <cases.json> <out.ndjson>")
+	if len(os.Args) < 4 || (os.Args[1] != "run" && os.Args[1] != "conc") {
+		vh.Die("usage: c16 run <cases.json> <out.ndjson> | c16 conc <cases.json> <out.ndjson> <workers> <millis>")
 	}
 	var cases []Case
 	vh.ReadJSON(os.Args[2], &cases)
 	tr := vh.NewTrace()
-	obf := obfuscation.Obfuscator{Hasher: hasher}
-	for _, c := range cases {
-		ctr := 0
-		c.Doc.resolve(&ctr)
-		var b strings.Builder
-		c.Doc.render(&b)
-		text := b.String()
-		excl := make([]string, len(c.Excl))
-		for i, x := range c.Excl {
-			excl[i] = renderExcl(x)
-			if c.Excl[i].Segs == nil {
-				c.Excl[i].Segs = []string{}
-			}
-			c.Excl[i].Raw = nil
-		}
-		var outText string
-		var err error
-		switch c.Entry {
-		case "json":
-			outText, err = obf.ObfuscateJSON(text, excl)
-		case "har_request", "har_response":
-			stream := test_utils.NewMockAPIStream("https://api.test/users/1?id=2",
-				map[string]string{"authorization": "Bearer t"}, map[string]string{"content-type": "application/json"}, text, text)
-			outText = harcollector.VerifObfuscateBody(excl, stream, text, c.Entry == "har_response")
-		case "legacy_request", "legacy_response":
-			outText, err = legacy(obf, c, text, excl)
-		default:
-			vh.Die("unknown entry %q", c.Entry)
-		}
-		ev := vh.Ev{"ev": "obf", "id": c.ID, "entry": c.Entry, "excl": c.Excl, "excl_strings": excl, "in": text, "out": outText}
-		leaves := []Leaf{}
-		shape := "same"
-		if err != nil {
-			shape = "error: " + err.Error()
-		} else {
-			dec := json.NewDecoder(strings.NewReader(outText))
-			dec.UseNumber()
-			var out any
-			if derr := dec.Decode(&out); derr != nil {
-				shape = "output-not-json"
-			} else if dec.More() {
-				shape = "output-trailing-data"
-			} else {
-				compare(c.Doc, out, nil, &leaves, &shape)
-			}
-		}
-		// document and (when the structure is preserved) the output with the class at every leaf, for the comparison with ObfI
-		ev["doc"] = c.Doc.tree(nil, nil)
-		if shape == "same" {
-			next := 0
-			ev["otree"] = c.Doc.tree(&leaves, &next)
-		} else {
-			ev["otree"] = Tree{K: "none", T: "", F: []any{}}
-		}
-		ev["shape"] = shape
-		ev["leaves"] = leaves
-		tr.Add(ev)
+	if os.Args[1] == "run" {
+		run(cases, tr)
+	} else {
+		workers, _ := strconv.Atoi(os.Args[4])
+		millis, _ := strconv.Atoi(os.Args[5])
+		conc(cases, tr, workers, millis)
 	}
 	tr.Write(os.Args[3])
 }
